@@ -7,15 +7,26 @@
 void c17_register_sched(std::vector<vf::Target>& tg, const std::string& prefix);
 void c17_register_real(std::vector<vf::Target>& tg, const std::string& prefix);
 #if defined(__SANITIZE_THREAD__)
-namespace c17 { std::atomic<int>& tsan_reports(); std::string& tsan_first(); }
+namespace c17 { std::atomic<int>& tsan_reports(); std::string& tsan_first(); int& verdict_fd(); }
 extern "C" int __tsan_get_report_data(void* report, const char** description, int* count, int* stack_count, int* mop_count, int* loc_count,
                                       int* mutex_count, int* thread_count, int* unique_tid_count, void** sleep_trace, unsigned long trace_size);
-// reports are counted through the runtime's weak hook because vf children leave with _exit()
+// Reports are taken from the runtime's weak hook because vf children leave with _exit(). The first report ends the
+// case at once (verdict line written here, like VF_FAIL would): every further report of the same race would only
+// cost time (report generation dominates the run time of a failing case and thereby the shrinking time).
 extern "C" void __tsan_on_report(void* report)
 {
   const char* what = nullptr; int count = 0, stacks = 0, mops = 0, locs = 0, mutexes = 0, threads = 0, utids = 0; void* sleep_trace[1] = { nullptr };
   __tsan_get_report_data(report, &what, &count, &stacks, &mops, &locs, &mutexes, &threads, &utids, sleep_trace, 1);
-  if(c17::tsan_reports().fetch_add(1) == 0) c17::tsan_first() = what ? what : "report";
+  if(c17::tsan_reports().fetch_add(1) == 0)
+  {
+    c17::tsan_first() = what ? what : "report";
+    int fd = c17::verdict_fd();
+    if(fd >= 0)
+    {
+      std::string s = std::string("V{\"verdict\":\"fail\",\"sym\":\"mismatch:ThreadSanitizer reported ") + c17::tsan_first() + " during a threaded assemble()\",\"overrun\":0}\n";
+      (void)!write(fd, s.data(), s.size()); _exit(0);
+    }
+  }
 }
 static const char* const prefix = "tsan_";
 #else
